@@ -509,7 +509,10 @@ def _reflag(ctx, d, pgpy):
         sk = pool.pgpy_bare('rsa1024_1')
         k.add_subkey(sk, usage={KeyFlags.Authentication}, created=t0)
         seq = [(['Certify'], ['Authentication']), (['Certify', 'Sign'], ['Authentication']), (['Certify'], ['Sign']), (['Certify'], ['EncryptCommunications']), (['Certify'], ['Authentication']),
-               (['Sign'], ['EncryptStorage']), (['Certify'], [])]
+               (['Sign'], ['EncryptStorage']), (['Certify'], []),
+               # the primary's own encryption capability granted and withdrawn by re-certifying the identity (matters for the RSA primary)
+               (['Certify', 'EncryptCommunications'], ['Authentication']), (['Certify'], ['Authentication']), (['Certify', 'EncryptStorage'], []), (['Certify', 'Sign'], [])]
+        held_pubs = []
         for i, (pf, sf) in enumerate(seq):
             u = k.userids[0]
             u |= k.certify(u, SignatureType.Positive_Cert, usage={getattr(KeyFlags, f) for f in pf}, created=t0 + timedelta(days=i + 1))
@@ -519,10 +522,19 @@ def _reflag(ctx, d, pgpy):
                     ctx.count('cells')
                     ctx.count('evaluations')
                     actor = k.pubkey if op == 'encrypt' else k
+                    if op == 'encrypt':
+                        # the caller keeps every public half it was ever handed (to publish it, say): the one handed out NOW follows the flags in force now
+                        held_pubs.append(actor)
+                        ctx.count('public_halves_kept_by_the_caller')
                     allowed, must_refuse = allowed_components(actor, op)
                     if op == 'encrypt' and pn == 'ed25519_0':
                         allowed = [a for a in allowed if a is not actor]
                         must_refuse = not allowed
+                    if op == 'encrypt':
+                        model_refuse = not (set(sf) & {'EncryptCommunications', 'EncryptStorage'}) and not (pn == 'rsa1024_0' and set(pf) & {'EncryptCommunications', 'EncryptStorage'})
+                        if model_refuse != must_refuse:
+                            ctx.fail('public-half-handed-out-does-not-carry-the-flags-in-force', {'primary': pn, 'step': i, 'subkey_flags': sf, 'public_halves_alive': len(held_pubs)})
+                            must_refuse = model_refuse
                     res = do_op(pgpy, actor, op, None, msg, None)
                     where = {'primary': pn, 'step': i, 'primary_flags': pf, 'subkey_flags': sf, 'op': op, 'repeat': rep}
                     if must_refuse and res[0] != 'refused':
